@@ -29,6 +29,13 @@ and as argument, for every object kind:
              the arguments of Synth(...) and Node.set (value()), map symbols
              of live and freed buses in raw send_msg commands (/n_set, /n_setn)
 Ops flagged 'uaf_id_slot' put a freed object where a command has an id slot.
+
+Nested bind() blocks (round 8, the class the earlier workload did not reach:
+no block was ever opened while another one was open): gen_nested_case builds
+a tree of blocks, 1-3 levels, on one or two servers, with exceptions raised
+at any point of any block and caught around any block of the chain, sync
+points and waits inside inner blocks (routines), operations for a server
+whose blocks are all closed.
 """
 
 DEFS = ['default', 'vf_sine', 'vf_pad', 'x']
@@ -1127,3 +1134,128 @@ def gen_stream_case(rng):
                                 'no-block']),
             'hold': rng.uniform(1.2, 2.6),
             'clock': rng.choice(['system', 'system', 'app'])}
+
+
+# ---------------------------------------------------------------------------
+# nested bind() blocks (round 8)
+
+def _plain_op(rng, pool, stats, multi_client, nrt):
+    """One op whose messages are strictly ordered and counted in advance (the
+    nested-block oracle compares whole wire sequences first)."""
+    for _ in range(80):
+        o = gen_op(rng, pool, True, stats, multi_client, False)
+        if o['op'] == 'free_all':                 # no defined order
+            continue
+        if o.get('uaf_id_slot'):                  # judged per method elsewhere
+            continue
+        if o['op'] == 'node' and o['m'] == 'seti':      # may send nothing at all
+            continue
+        if o['op'] == 'server' and o['m'] == 'send_bundle':
+            if any(m[0] == '/sync' for m in o['msgs']):
+                continue                          # would look like a sync point
+            if nrt:
+                o['time'] = rng.choice([None, 0])  # NRT score entries stay at 0
+        if o['op'] == 'server' and o['m'] == 'send_msg' and o['msg'][0] == '/sync':
+            continue
+        return o
+    raise AssertionError('no op')
+
+
+def gen_nested_case(rng, mode):
+    """bind() blocks inside bind() blocks, 2-3 levels deep, on one server or
+    alternating between two, entered from the main thread or (RT) from a
+    routine, with harness exceptions raised at an arbitrary point of any
+    block and caught directly around any block of the chain (`catch`), so
+    that the enclosing blocks go on and exit normally or fail later
+    themselves; in routines `yield from server.sync()` (with and without
+    elements) and plain waits at any level.
+
+    {'where': 'main' | 'routine', 'clock', 'servers': 1 | 2,
+     'pre': [item], 'root': block, 'post': [item]}
+    block = {'srv': k, 'depth': d, 'catch': bool, 'raise_at': n | None,
+             'items': [item]}          raise_at: after the last item
+    item  = {'do': op, 'srv': k} | {'block': block}
+          | {'sync': None | [msg, ...], 'srv': k} | {'wait': seconds}
+    An op addresses the objects of server `srv`, which need not be the server
+    of the innermost block: its commands belong to the innermost open block
+    of *its* server, or go out directly when that server has none."""
+    nrt = mode == 'nrt'
+    nsrv = 2 if rng.random() < 0.45 else 1
+    where = 'main' if nrt or rng.random() < 0.45 else 'routine'
+    pools = [Pool() for _ in range(nsrv)]
+    stats = {'add_actions': set()}
+    info = {'blocks': 0, 'failed_blocks': 0, 'max_depth': 0, 'syncs': 0,
+            'syncs_in_inner_blocks': 0, 'caught_inside_an_outer_block': 0,
+            'foreign_server_ops': 0}
+
+    def op(s):
+        return {'do': _plain_op(rng, pools[s], stats, s == 1, nrt), 'srv': s}
+
+    def sync_item(s, depth):
+        el = None
+        if rng.random() < 0.25:
+            nodes = pools[s].live_nodes()
+            el = ([['/n_trace', {'$node': rng.choice(nodes)}]
+                   for _ in range(rng.randint(1, 2))] if nodes else [['/status']])
+        info['syncs'] += 1
+        if depth >= 1:
+            info['syncs_in_inner_blocks'] += 1
+        return {'sync': el, 'srv': s}
+
+    max_depth = rng.choice([2, 2, 3])
+
+    def block(depth, srv):
+        info['blocks'] += 1
+        info['max_depth'] = max(info['max_depth'], depth + 1)
+        marks = [len(p.created_in_block) for p in pools]
+        n = rng.randint(0 if depth else 1, 5)
+        raise_at = rng.randint(0, n) if rng.random() < (0.45 if depth else 0.2) else None
+        catch = depth == 0 or rng.random() < 0.7
+        forced = rng.randrange(n) if depth == 0 and n and rng.random() < 0.85 else None
+        items = []
+        propagated = False
+        for k in range(n if raise_at is None else raise_at):
+            r = rng.random()
+            if depth + 1 < max_depth and (k == forced or r < 0.28):
+                cs = srv if nsrv == 1 or rng.random() < 0.6 else 1 - srv
+                child, outcome = block(depth + 1, cs)
+                items.append({'block': child})
+                if outcome == 'raised':
+                    propagated = True
+                    break
+            elif where == 'routine' and r < 0.42:
+                items.append(sync_item(srv if rng.random() < 0.75
+                                       else rng.randrange(nsrv), depth))
+            elif where == 'routine' and r < 0.47:
+                items.append({'wait': rng.choice([0.0, 0.001, 0.003])})
+            else:
+                s = srv if nsrv == 1 or rng.random() < 0.75 else 1 - srv
+                if s != srv:
+                    info['foreign_server_ops'] += 1
+                items.append(op(s))
+        if propagated:
+            raise_at = None
+        fails = propagated or raise_at is not None
+        if fails:
+            info['failed_blocks'] += 1
+            # conservative: nothing created since this block was entered is
+            # used again (of either server)
+            for p, mk in zip(pools, marks):
+                for h in p.created_in_block[mk:]:
+                    for tbl in (p.nodes, p.bufs, p.buses):
+                        if h in tbl:
+                            tbl[h]['state'] = 'limbo'
+            if catch and depth:
+                info['caught_inside_an_outer_block'] += 1
+        blk = {'srv': srv, 'depth': depth, 'catch': catch, 'raise_at': raise_at,
+               'items': items}
+        return blk, ('ok' if not fails else 'caught' if catch else 'raised')
+
+    pre = [op(rng.randrange(nsrv)) for _ in range(rng.randint(0, 6))]
+    root, outcome = block(0, rng.randrange(nsrv))
+    info['root_outcome'] = outcome
+    post = [op(rng.randrange(nsrv)) for _ in range(rng.randint(1, 3))]
+    stats['add_actions'] = sorted(stats['add_actions'])
+    case = {'where': where, 'clock': rng.choice(['system', 'system', 'app']),
+            'servers': nsrv, 'pre': pre, 'root': root, 'post': post}
+    return case, info
